@@ -39,6 +39,8 @@ type Frame struct {
 	fn      *FuncRef
 	vars    map[types.Object]*Obj
 	results []Value
+	byName  map[string]*Obj
+	types   map[string]types.Type
 }
 
 type Exec struct {
